@@ -262,6 +262,8 @@ pub fn tai_count_any() -> BS<i128> {
         (1, (days_1900(1958, 1, 1) as i128 * NS_D..days_1900(1972, 1, 2) as i128 * NS_D).boxed()),
         // century boundaries of the count
         (1, (-90i128..=90, small_delta(3)).prop_map(|(k, d)| k * NPC + d).boxed()),
+        // within two days of a century boundary of the count (views shifted by a constant cross it elsewhere)
+        (1, (-90i128..=90, -2 * NS_D..=2 * NS_D).prop_map(|(k, d)| k * NPC + d).boxed()),
         // sampled years to +-30 000
         (1, (-30_000i64..=30_000, 0i64..365, tod_any()).prop_map(|(y, doy, t)| (days_1900(y, 1, 1) + doy) as i128 * NS_D + t).boxed()),
     ])
